@@ -185,9 +185,12 @@ def _scanner_tabulation(repo, chk):
     SC, Scanner = sc['SourceCode'], sc['Scanner']
     alphabet = 'ab'
     lines_pool = [''] + [''.join(t) for n in (1, 2, 3) for t in itertools.product(alphabet, repeat=n)]
-    sources = [[l] for l in lines_pool] + [[x, y] for x in ('', 'a', 'ab') for y in ('', 'b', 'ba')] + [['a', '', 'b'], []]
-    strings = [''.join(t) for n in (1, 2) for t in itertools.product(alphabet, repeat=n)]
-    pats = [(_re.compile('a+'), 0), (_re.compile('(a)(b)?'), 2), (_re.compile('b(a)'), 1), (_re.compile('x'), 0), (_re.compile('a*'), 0)]
+    # text is handed on exactly as written: decomposed / compatibility characters are not normalised on the way
+    odd = ['a\u0301b', '\u212bb', 'b\u1100\u1161', '\ufb01a']
+    sources = [[l] for l in lines_pool] + [[x, y] for x in ('', 'a', 'ab') for y in ('', 'b', 'ba')] + [['a', '', 'b'], []] + [[o] for o in odd]
+    strings = [''.join(t) for n in (1, 2) for t in itertools.product(alphabet, repeat=n)] + ['a\u0301', '\u212b']
+    pats = [(_re.compile('a+'), 0), (_re.compile('(a)(b)?'), 2), (_re.compile('b(a)'), 1), (_re.compile('x'), 0), (_re.compile('a*'), 0),
+            (_re.compile('[^b]+'), 0), (_re.compile('([^b]+)'), 1)]
     bad = {}
     n = 0
 
@@ -423,6 +426,12 @@ def run(repo, chk):
     for cls, members in doc.items():
         got = {m.name: m.value for m in tok[cls]} if cls in tok else None
         chk.expect(got == members, 'C12.R3', f'{cls} spellings', f'{got}', TOKENS)
+    # ... and nothing else: the spellings the lexer knows are exactly the documented ones (an extra symbol such as `++`
+    # would swallow two adjacent operators by longest match)
+    documented = {v for members in doc.values() for v in members.values()}
+    known = {str(getattr(t_, 'value', t_)) for t_ in enum_tokens}
+    chk.expect(known == documented, 'C12.R3', 'token spellings are exactly the documented set',
+               f'undocumented: {sorted(known - documented)}; missing: {sorted(documented - known)}', TOKENS)
     chk.expect(tok['BoolToken'].TRUE.data is True and tok['BoolToken'].FALSE.data is False, 'C12.R3', 'BoolToken.data', '', TOKENS)
     IAT = tok['IncAssignToken']
     chk.expect(all(m.operator.value == m.value[:-1] for m in IAT), 'C12.R3', 'IncAssignToken.operator', 'op= maps to op', TOKENS)
